@@ -16,6 +16,11 @@
         /// `spec_dec` specifies the decoder completely (true for every leaf encoding; false for derive-generated
         /// struct decoders, whose tag loop is specified only by frame/totality clauses)
         spec fn functional() -> bool;
+        /// what a successful result must satisfy even where `spec_dec` is not functional (raw byte payloads:
+        /// `Vec` values have no spec-level equality, so the relation is over the view)
+        spec fn dec_rel(b: Seq<u8>, v: &T, k: int) -> bool;
+        /// the decoder never fails (only the raw copy)
+        spec fn dec_total() -> bool;
 
         //@ fn src:zvt_builder/src/encoding.rs | trait Encoding | encode | sig props=C17,C03
         //@ tag enc.exact C17 C03 ~C01
@@ -32,6 +37,10 @@
                 r matches Ok((v2, rest)) ==> is_tail(rest@, bytes@) && rest@.len() <= bytes@.len(),
         //@ tag dec.progress C02
                 Self::progresses() ==> (r matches Ok((v2, rest)) ==> rest@.len() < bytes@.len()),
+        //@ tag dec.rel C14 C11
+                r matches Ok((v2, rest)) ==> Self::dec_rel(bytes@, &v2, bytes@.len() - rest@.len()),
+        //@ tag dec.total C02
+                Self::dec_total() ==> r is Ok,
         //@ end
 
         //@ tag enc.law_inverse C17 C01
@@ -78,6 +87,8 @@
         //@ fn src:zvt_builder/src/encoding.rs | impl encoding::Encoding<Tag> for Default | decode | props=C02,C17 $M
         //@ end
         open spec fn self_delimiting() -> bool { true }
+        open spec fn dec_rel(b: Seq<u8>, v: &Tag, k: int) -> bool { true }
+        open spec fn dec_total() -> bool { false }
         open spec fn functional() -> bool { true }
         proof fn law_dec_bounds(b: Seq<u8>) {}
         //@ tag enc.law_dec_frame.tag C14
@@ -107,6 +118,8 @@
         //@ fn src:zvt_builder/src/encoding.rs | impl encoding::Encoding<Tag> for BigEndian | decode | props=C02,C17 $M
         //@ end
         open spec fn self_delimiting() -> bool { true }
+        open spec fn dec_rel(b: Seq<u8>, v: &Tag, k: int) -> bool { true }
+        open spec fn dec_total() -> bool { false }
         open spec fn functional() -> bool { true }
         proof fn law_dec_bounds(b: Seq<u8>) {}
         //@ tag enc.law_dec_frame.tagbe C14
@@ -139,6 +152,8 @@
         //@ fn src:zvt_builder/src/encoding.rs | impl Encoding<Option<T>> for E | encode | props=C17,C03 $M
         //@ end
         open spec fn self_delimiting() -> bool { E::self_delimiting() }
+        open spec fn dec_rel(b: Seq<u8>, v: &Option<T>, k: int) -> bool { true }
+        open spec fn dec_total() -> bool { false }
         open spec fn functional() -> bool { E::functional() }
         proof fn law_dec_bounds(b: Seq<u8>) { E::law_dec_bounds(b); }
         //@ tag enc.law_dec_frame.option C14
@@ -168,6 +183,8 @@
         //@ fn src:zvt_builder/src/encoding.rs | impl Encoding<Vec<T>> for E | decode | ext props=C02,C17
         //@ end
         open spec fn self_delimiting() -> bool { false }
+        open spec fn dec_rel(b: Seq<u8>, v: &Vec<T>, k: int) -> bool { true }
+        open spec fn dec_total() -> bool { false }
         open spec fn functional() -> bool { true }
         proof fn law_dec_bounds(b: Seq<u8>) {}
         proof fn law_dec_frame(b: Seq<u8>, s: Seq<u8>) {}
@@ -192,6 +209,8 @@
         //@ fn src:zvt_builder/src/encoding.rs | impl Encoding<String> for Default | decode | ext props=C02,C17
         //@ end
         open spec fn self_delimiting() -> bool { false }
+        open spec fn dec_rel(b: Seq<u8>, v: &String, k: int) -> bool { true }
+        open spec fn dec_total() -> bool { false }
         open spec fn functional() -> bool { true }
         proof fn law_dec_bounds(b: Seq<u8>) {}
         proof fn law_dec_frame(b: Seq<u8>, s: Seq<u8>) {}
@@ -214,6 +233,8 @@
         //@ fn src:zvt_builder/src/encoding.rs | impl Encoding<String> for Hex | decode | ext props=C02,C17
         //@ end
         open spec fn self_delimiting() -> bool { false }
+        open spec fn dec_rel(b: Seq<u8>, v: &String, k: int) -> bool { true }
+        open spec fn dec_total() -> bool { false }
         open spec fn functional() -> bool { true }
         proof fn law_dec_bounds(b: Seq<u8>) {}
         proof fn law_dec_frame(b: Seq<u8>, s: Seq<u8>) {}
@@ -320,6 +341,8 @@
         open spec fn spec_dec(b: Seq<u8>) -> Option<(String, int)> { match utf8_dec(b) { Some(s) => Some((s, b.len() as int)), None => None } }
         open spec fn progresses() -> bool { false }
         open spec fn self_delimiting() -> bool { false }
+        open spec fn dec_rel(b: Seq<u8>, v: &String, k: int) -> bool { true }
+        open spec fn dec_total() -> bool { false }
         open spec fn functional() -> bool { true }
         //@ fn src:zvt_builder/src/encoding.rs | impl Encoding<String> for Utf8 | encode | props=C17,C01 $M
         //@ end
@@ -369,6 +392,8 @@
         open spec fn spec_dec(b: Seq<u8>) -> Option<(NaiveDateTime, int)> { datetime_dec(b) }
         open spec fn progresses() -> bool { false }
         open spec fn self_delimiting() -> bool { false }
+        open spec fn dec_rel(b: Seq<u8>, v: &NaiveDateTime, k: int) -> bool { true }
+        open spec fn dec_total() -> bool { false }
         /// only totality and the frame clause are proved for the date decoder
         open spec fn functional() -> bool { false }
         //@ fn src:zvt_builder/src/encoding.rs | impl Encoding<NaiveDateTime> for Default | encode | ext
